@@ -19,8 +19,9 @@ CLAIMED = {
         'operation the arenas must be exactly tiled by live, free and '
         'pending blocks, free neighbours merged, blocks aligned, inside the '
         'arena, disjoint, contents intact, and no arena mapped while a free '
-        'extent fits. Exploration level: held on N generated histories, no '
-        'claim of absence.',
+        'extent fits; frees that arrive inside a malloc (finalizer run while '
+        'the heap updates its free lists) are neither lost nor applied twice. '
+        'Exploration level: held on N generated histories, no claim of absence.',
         'Reads Heap internals (_start_to_block etc.) as the free index; real '
         'thread interleavings are OS-chosen.',
         'DESIGN.md section 3 C14'),
@@ -80,7 +81,11 @@ CLAIMED = {
         'linger (KILL), group leaders or not, map/imap jobs sharing the pool: a '
         'scan fails exactly the jobs past their effective limit with '
         'TimeLimitExceeded(limit), signals only their workers (TERM first, KILL iff '
-        'lingering), never times out map/imap jobs, never raises. Exploration.',
+        'lingering), never times out map/imap jobs, never raises; a result '
+        'consumed between two jobs of a running scan, or whose callback is still '
+        'running when a second (real) thread scans, is never timed out. Real '
+        'pools: the job fails within the bound, its process is gone, later jobs '
+        'are served. Exploration.',
         'Signals are recorded on simulated processes; real kill/replace is the '
         'real-pool part.',
         'DESIGN.md section 3 C05'),
@@ -92,7 +97,11 @@ CLAIMED = {
         'successive scans: the soft signal is recorded only for a worker whose '
         'unresolved job is past its effective soft limit and not past its hard '
         'limit, at most once per job, with timeout_callback(soft=True, '
-        'timeout=limit) exactly once; per-job limits take precedence. Exploration.',
+        'timeout=limit) exactly once; per-job limits take precedence; no signal '
+        'for a job whose result was consumed, also while its callback is still '
+        'running (real scanner thread). Real pools: a task counting '
+        'SoftTimeLimitExceeded sees exactly one and its value is delivered. '
+        'Exploration.',
         'That the signal raises SoftTimeLimitExceeded inside the task is checked '
         'with real processes in the real-pool part.',
         'DESIGN.md section 3 C06'),
@@ -120,9 +129,11 @@ CLAIMED = {
         'step the pool is back at its configured size, never above it, with '
         'distinct slot indices and no exited worker left listed; recycle/clean '
         'exits fail no job; a worker whose results were consumed is not held up '
-        'by the 30 s guard. Exploration level.',
-        'Simulated workers; quota enforcement in the worker loop is checked by '
-        'C03; D6b is an open known finding.',
+        'by the 30 s guard; the real worker loop never exceeds its quota whatever '
+        'the task outcomes (incl. unserialisable results) and recycles on a '
+        'memory-limit hit after finishing the task; real pools: per-process task '
+        'counts, recycle statuses, every job exactly once. Exploration level.',
+        'Simulated workers for the supervision part; D6b is an open finding.',
         'DESIGN.md section 3 C09'),
     'C10': (
         'unit+simpool',
@@ -133,8 +144,11 @@ CLAIMED = {
         'length 7 for n<=2 enumerated, longer ones generated); in pool histories '
         'with put-locks the semaphore never exceeds its bound, equals bound minus '
         'outstanding apply jobs on exit-free histories, and is full again at '
-        'quiescence. Exploration level (small scope exhaustive).',
-        'Failed sends leak a slot (open known finding D15).',
+        'quiescence; real threads releasing concurrently (barrier, 1 us switch '
+        'interval) never push it above its bound. Exploration level (small scope '
+        'exhaustive).',
+        'Failed sends leak a slot (open finding D15); a limit kill whose job had '
+        'finished with its result in flight loses a slot (open finding D24).',
         'DESIGN.md section 3 C10'),
     'C11': (
         'unit+simpool',
@@ -288,8 +302,9 @@ CLAIMED = {
         'forked clients are compared call by call with local objects, referent '
         'exceptions included; N clients x M operations leave exactly NxM '
         'effects; after every create/copy/hand-over/drop step the server holds '
-        'exactly the referents with a live proxy; wrong keys are refused with no '
-        'request served. Exploration level.',
+        'exactly the referents with a live proxy, also for referents that several '
+        'proxies share through a registered callable; wrong keys are refused with '
+        'no request served. Exploration level.',
         'Atomicity of concurrent operations is observed under OS-chosen '
         'schedules; clients are fork-context only.',
         'DESIGN.md section 3 C20'),
@@ -304,7 +319,8 @@ CLAIMED = {
         'FIFO and unchanged items, task_done over-call raises, join returns '
         'exactly when all items are done. With 1-4 producers and 1-4 consumers '
         'the received multiset equals the sent one and each consumer sees every '
-        'producer\'s items in order. Exploration level.',
+        'producer\'s items in order; threads racing on their first put on a '
+        'fresh queue (lazy feeder start) lose or reorder nothing. Exploration.',
         'Multi-party interleavings are OS-chosen; fork start method only.',
         'DESIGN.md section 3 C16'),
 }
